@@ -136,7 +136,7 @@ def straddle(x, ty):
 def ladder(x, ty):
     """points at geometrically spaced distances either side of a switch value (a band of altered behaviour next
     to a threshold may be as narrow as sqrt(eps) or as wide as a few per cent)"""
-    ks = (10, 20) if ty == 'f32' else (12, 26, 40)
+    ks = (8, 10, 12, 14, 20) if ty == 'f32' else (12, 20, 27, 33, 40)
     out = []
     for k in ks:
         out += [x * (1 - 2.0 ** -k), x * (1 + 2.0 ** -k)]
